@@ -227,7 +227,7 @@ def instrumented():
 class Probe:
     """One controlled execution of the real sampler."""
 
-    def __init__(self, cfg, symbols=None, base=0, monitors=(), pool=None, max_iters=60):
+    def __init__(self, cfg, symbols=None, base=0, monitors=(), pool=None, max_iters=60, fs=None):
         self.cfg_in = dict(cfg)
         self.symbols = {int(k): v for k, v in (symbols or {}).items()}
         self.base = base
@@ -244,6 +244,7 @@ class Probe:
         self.exc = None
         self.completed = False
         self.trace = []
+        self.fs = fs
 
     # -- called by the wrappers --
     def _begin_iter(self):
@@ -264,12 +265,19 @@ class Probe:
         self.viol.append((key, msg, detail))
 
     # -- driving --
+    def _mount(self):
+        if self.fs is None:
+            return contextlib.nullcontext()
+        from .refmodels import fs as _fs
+
+        return _fs.mounted(self.fs)
+
     def run(self, **kw):
         global _ACTIVE
         prev = _ACTIVE
         _ACTIVE = self
         try:
-            with env.quiet(), instrumented(), self.tape:
+            with env.quiet(), instrumented(), self.tape, self._mount():
                 args = dict(n_total=self.cfg["n_total"], progress=False)
                 if self.cfg.get("save_every") is not None:
                     args["save_every"] = self.cfg["save_every"]
@@ -290,7 +298,7 @@ class Probe:
         prev = _ACTIVE
         _ACTIVE = self
         try:
-            with env.quiet(), instrumented(), self.tape:
+            with env.quiet(), instrumented(), self.tape, self._mount():
                 if self.state.get_current("iter") is None:
                     self.sampler._core._initialize_fresh()
                 for _ in range(n):
